@@ -4,8 +4,10 @@ cd /verif
 # works on a scratch worktree so that /repo stays untouched while the matrix runs
 export VERIF_REPO=/tmp/repo_mut
 git -C /repo worktree remove --force $VERIF_REPO 2>/dev/null; git -C /repo worktree add -q --detach $VERIF_REPO HEAD || exit 2
-declare -A EXTRA=( [C06-a]="C07" [C03-a]="C01" [C13-a]="C05 C20" [C10-a]="C06" [C20-a]="C05" [C01-a]="C09" [C02-a]="C13" )
-for d in seeded/C*-*/; do
+declare -A EXTRA=( [C06-a]="C07" [C03-a]="C01" [C13-a]="C05 C20" [C10-a]="C06" [C20-a]="C05" [C01-a]="C09" [C02-a]="C13" [C01-b]="C05 C14" [C13-b]="C05" )
+LIST="${@:-seeded/C*-*/}"
+for d in $LIST; do
+  d="${d%/}/"
   id=$(basename $d); prop=${id%%-*}
   : > $d/check_result.txt
   for p in $prop ${EXTRA[$id]:-}; do
